@@ -276,6 +276,7 @@ func runC04(c *run.Ctx) {
 	fixedCases(c, confusableCases(), oracleC04)
 	fixedCases(c, signedZeroCases(), oracleC04)
 	fixedCases(c, nearLiteralCases(), oracleC04)
+	fixedCases(c, sharedOperandCases(), oracleC04)
 	c.Note("time zone of this worker: " + time.Local.String())
 }
 
